@@ -415,9 +415,21 @@ def required_effects(ctx, rule, prop):
             # a fact over the same variables as a known enabling fact is
             # the same test spelled differently (`x` / `x is True or x`);
             # what is reported is a condition on something NEW
-            extra = [x for x in enabling_facts(cfg, f, node)
+            # ... except the plain negation of a known fact, which is the
+            # opposite condition, not a respelling of it
+            facts_here = enabling_facts(cfg, f, node)
+            negated = [x for x in facts_here
+                       if x not in allowed and (x[0], not x[1]) in allowed
+                       and not any(y[0] == x[0] and y[1] == x[1]
+                                   for y in allowed)]
+            # a known fact may legitimately appear with both truth values at
+            # different sites (then both are listed): only report when the
+            # site shows the negation and NOT the listed polarity
+            negated = [x for x in negated
+                       if (x[0], not x[1]) not in facts_here]
+            extra = [x for x in facts_here
                      if x not in allowed and
-                     not (_paths(x[0]) and _paths(x[0]) <= known)]
+                     not (_paths(x[0]) and _paths(x[0]) <= known)] + negated
             rule.check(not extra, ctx.construct(f, extra=eff + ' enabled'),
                        '%s is additionally conditioned on %s: the effect / '
                        'refusal is skipped in situations where the property '
